@@ -23,7 +23,7 @@ ASPECT = "C07"
 def shards(tier):
     if tier == "quick":
         return [{"label": "hist%d" % i, "n": 1200} for i in range(12)]
-    return [{"label": "hist%d" % i, "n": 25000} for i in range(16)]
+    return [{"label": "hist%d" % i, "n": 60000} for i in range(16)]
 
 
 def run_shard(ctx):
